@@ -11,7 +11,12 @@ UNITS = [
                    'from the root keep the mass flux, and the non-dimensional fluxes are the physical ones with c0 = self.sound, P0 = self.P0 (theorems on the '
                    'regenerated constructor and residual functions); the end of the real profile is checked to be a root of the regenerated residuals'),
     flow.Unit('flux-constancy', groups=[], props=[], oracle=RC.oracle, always_oracle=True,
-              note='mass / total momentum / total energy flux along the computed profiles: the profiles come from SciPy ODE integration and root finding (class NU), checked on the real code for non-default parameters'),
+              findings=[dict(id='ed-embedded-shock-ramp', refuted=None, pending=None, replay=RC.replay_ed_ramp,
+                             what='ED_Solver (M0 = 1.5, other parameters default): the embedded hydrodynamic shock is represented by the last integrated knot '
+                                  '(x = 0) and the far-downstream end knot only, so the public call returns a linear ramp of density, velocity and pressure over '
+                                  'the whole downstream end interval; mass flux of the returned fields varies by 6e-3 (16 % at M0 = 3) although it is constant to '
+                                  '1e-15 on the knots')],
+              note='fluxes of the RETURNED fields (public call, 1500 points across the profile) and of the internal knots; 'mass / total momentum / total energy flux along the computed profiles: the profiles come from SciPy ODE integration and root finding (class NU), checked on the real code for non-default parameters'),
 ]
 
 
